@@ -14,7 +14,7 @@ func init() {
 	register(&PropertyDef{
 		ID:          "C02",
 		Title:       "Receiver ratchet tolerates any arrival order and duplication of messages",
-		Explanation: "Decides the structural clauses of the receiver ratchet from the SSA of pkg/secretstore: (D1) the stored chain key only moves forward (abstract evaluation of the updater over {new<stored,=,>}); (D2) registration is once-only: every write of registration (precomputed window, chain key) is dominated by the 'no chain key stored' outcome of the lookup, and the 'already registered' outcome returns success without any write; (D3) the window created at registration: the precompute loop, evaluated abstractly with window sizes 1..3, derives exactly window-size keys and returns the chain key at counter c+window, the window is persisted before returning, and the chain key stored by registration is that returned value; (D4) slide by one per newly opened message: the post-decryption step writes exactly one next key outside any loop, for the same counter value (stored+1) that it puts in the chain key it returns; (D5) re-reads keep working: key saved by CID before the precomputed key is deleted, the deleted key is the one at the opened header's counter, and the by-CID lookup is tried first with the precomputed lookup only on its miss side, keyed by the header's device and counter; (D6) the 'not registered yet' test that guards registration's writes is made under the same message lock as the writes (no test-then-lock-then-write). In D4/D5 the steps of the post-decryption function are its call sites or, when it runs a local table of closures by one forward range loop (`for _, step := range []func() error{...}`, statically known elements; recognised by c09Tables, which also adds the calls to the call graph), the elements of that table in table order; a table run in any other way counts as unordered and possibly repeated; values handed from one closure to the next through a captured variable, and parameters of the enclosing function read through a captured variable that is never reassigned, are followed. Not decided: the window inequality for all permutations with repetition (loop arithmetic over runtime history), one-wayness of the KDF.",
+		Explanation: "Decides the structural clauses of the receiver ratchet from the SSA of pkg/secretstore: (D1) the stored chain key only moves forward (abstract evaluation of the updater over {new<stored,=,>}); (D2) registration is once-only: every write of registration (precomputed window, chain key) is dominated by the 'no chain key stored' outcome of the lookup, and the 'already registered' outcome returns success without any write; (D3) the window created at registration: the precompute loop, evaluated abstractly with window sizes 1..3, derives exactly window-size keys and returns the chain key at counter c+window, the window is persisted before returning, and the chain key stored by registration is that returned value; (D4) slide by one per newly opened message: the post-decryption step writes exactly one next key outside any loop, for the same counter value (stored+1) that it puts in the chain key it returns; (D5) re-reads keep working: key saved by CID before the precomputed key is deleted, the deleted key is the one at the opened header's counter, and the by-CID lookup is tried first with the precomputed lookup only on its miss side, keyed by the header's device and counter; (D6) the 'not registered yet' test that guards registration's writes is made under the same message lock as the writes (no test-then-lock-then-write). In D4/D5 the steps of the post-decryption function are its call sites or, when it runs a local table of closures by one forward loop over the whole table, entered once (`for _, step := range []func() error{...}` or `for i := 0; i < len(steps); i++`, statically known elements; recognised by c09Tables, which also adds the calls to the call graph), the elements of that table in table order; a table walked in any other way (reversed, strided, partial, inside an outer loop) counts as unordered and possibly repeated; values handed from one closure to the next through a captured variable, and parameters of the enclosing function read through a captured variable that is never reassigned, are followed. Not decided: the window inequality for all permutations with repetition (loop arithmetic over runtime history), one-wayness of the KDF.",
 		Trusted:     []string{"go/ssa (x/tools v0.29.0)", "HKDF one-wayness", "effects identified by the namespace constants of pkg/secretstore"},
 		Assumptions: []string{"the evaluator's window sizes 1..3 are representative of the loop's counting form (the loop body is the same for every size)"},
 		Floors:      map[string]int{"D1": 4, "D2": 3, "D3": 7, "D4": 2, "D5": 4, "D6": 2},
@@ -167,13 +167,11 @@ func runC02(c *Ctx) {
 				"the 'not registered yet' test guarding this write is made under the same lock as the write", "registration tests 'already registered?' before taking "+class+" and writes after taking it without testing again: a concurrent second registration of the same device overwrites the ratchet state (rewind)")
 		}
 		// the hit side returns success without writes
-		for _, g := range ei.sitesWith(regFn, getChain) {
-			v := errVerdict(g.Instr)
-			if v == nil || !g.pureLookup() {
-				continue
-			}
-			region := reachFromEdges(edgesOfVerdict(v).Accept, nil)
-			miss := reachFromEdges(edgesOfVerdict(v).Reject, nil)
+		// (the outcome is the lookup's error, or the bool a lookup-only helper reports it with)
+		for _, lk := range c02ChainKeyLookups(w, regFn) {
+			g := lk.Site
+			region := reachFromEdges(lk.Hit, nil)
+			miss := reachFromEdges(lk.Miss, nil)
 			okHit, sawRet := true, false
 			for _, s := range ei.sitesIn(regFn) {
 				if region[s.Instr.Block()] && !miss[s.Instr.Block()] && (s.has(putChain) || s.has(putPre) || s.has(delPre)) {
@@ -265,7 +263,7 @@ func runC02(c *Ctx) {
 		okOne := len(slides) == 1 && !c02StepRepeats(slides[0])
 		slideMsg := fmt.Sprintf("%d next-key writes per opened message (or inside a loop): the window does not slide by exactly one", len(slides))
 		if len(slides) == 1 && slides[0].Table != nil {
-			slideMsg = "the next-key write is a step of a table of closures that is not run exactly once, first element to last, by a forward range loop entered once: that the window slides by exactly one per opened message is not established"
+			slideMsg = "the next-key write is a step of a table of closures that is not run exactly once, first element to last, by a forward loop over the whole table (range, or i := 0; i < len; i++) entered once: that the window slides by exactly one per opened message is not established"
 		}
 		c.check(okOne, "D4", fnName(post)+"+one-slide", post.Pos(), "exactly one next-key write per newly opened message", slideMsg)
 		if len(slides) == 1 && slides[0].Callee != nil {
@@ -409,6 +407,121 @@ func runC02(c *Ctx) {
 	}
 }
 
+// ---------- the 'is a chain key already stored?' lookup and its two outcomes ----------
+
+// A c02Lookup is one site of fn that only looks the stored chain key up, with the CFG edges of
+// fn taken on its two outcomes. Direct form: the site's error is the outcome (nil = a key is
+// stored). Helper form: the site calls a module function that only looks up and reports the
+// outcome as a bool result - begin(...) (key, alreadyRegistered bool, err error) - where inside
+// the helper every `true` return lies on the hit side of its own lookup and every `false`
+// success return on the miss side; the caller's edges are then those of its test of that bool,
+// the miss side holding only where the helper's error was also found nil.
+type c02Lookup struct {
+	Site      effectSite
+	Hit, Miss []edge
+	AlsoNil   []edge // helper form: accepting edges of the helper's error (required with Miss)
+	ViaHelper bool
+}
+
+func (l c02Lookup) missDominates(b *ssa.BasicBlock) bool {
+	dom := func(es []edge) bool {
+		for _, e := range es {
+			if edgeDominates(e, b) {
+				return true
+			}
+		}
+		return false
+	}
+	return dom(l.Miss) && (!l.ViaHelper || dom(l.AlsoNil))
+}
+
+// c02OutcomeBool: h is a lookup helper in the sense above; returns the index of its bool result.
+func c02OutcomeBool(w *World, h *ssa.Function, depth int) (int, bool) {
+	if h == nil || h.Blocks == nil || !inModule(h) || depth > 1 || errResultIndex(h.Signature) < 0 {
+		return -1, false
+	}
+	bi := -1
+	for i := 0; i < h.Signature.Results().Len(); i++ {
+		if isBoolType(h.Signature.Results().At(i).Type()) {
+			if bi >= 0 {
+				return -1, false
+			}
+			bi = i
+		}
+	}
+	if bi < 0 {
+		return -1, false
+	}
+	inner := c02ChainKeyLookupsAt(w, h, depth+1)
+	if len(inner) == 0 {
+		return -1, false
+	}
+	nTrue := 0
+	for _, r := range returnsOf(h) {
+		rr := retResults(r)
+		if bi >= len(rr) {
+			return -1, false
+		}
+		val, isC := constBool(rr[bi])
+		if !isC {
+			return -1, false
+		}
+		okSide := false
+		for _, l := range inner {
+			if val {
+				for _, e := range l.Hit {
+					if edgeDominates(e, r.Block()) {
+						okSide = true
+					}
+				}
+			} else if l.missDominates(r.Block()) {
+				okSide = true
+			}
+		}
+		switch {
+		case val && !okSide:
+			return -1, false
+		case val:
+			nTrue++
+		case !okSide && isSuccessReturn(r):
+			return -1, false
+		}
+	}
+	return bi, nTrue > 0
+}
+
+// c02ChainKeyLookups: the pure chain-key lookups of fn with their outcome edges.
+func c02ChainKeyLookups(w *World, fn *ssa.Function) []c02Lookup {
+	return c02ChainKeyLookupsAt(w, fn, 0)
+}
+
+func c02ChainKeyLookupsAt(w *World, fn *ssa.Function, depth int) []c02Lookup {
+	ei := w.effects()
+	var out []c02Lookup
+	for _, s := range ei.sitesWith(fn, eff("Get", nsChainKey)) {
+		if !s.pureLookup() {
+			continue
+		}
+		if bi, ok := c02OutcomeBool(w, s.Callee, depth); ok && !s.Direct {
+			b := resultValue(s.Instr, bi)
+			ev := errVerdict(s.Instr)
+			if b == nil || ev == nil {
+				continue // outcome discarded: neither side is known
+			}
+			be := edgesOfVerdict(b)
+			out = append(out, c02Lookup{Site: s, Hit: be.Accept, Miss: be.Reject, AlsoNil: edgesOfVerdict(ev).Accept, ViaHelper: true})
+			continue
+		}
+		v := errVerdict(s.Instr)
+		if v == nil {
+			continue
+		}
+		ve := edgesOfVerdict(v)
+		out = append(out, c02Lookup{Site: s, Hit: ve.Accept, Miss: ve.Reject})
+	}
+	return out
+}
+
 // ---------- steps run from a local table of closures ----------
 
 // c02Steps: the steps of fn that may perform e: its effect sites, a call through a local table
@@ -425,8 +538,9 @@ func c02Steps(w *World, fn *ssa.Function, e EffPred) []c10VSite {
 }
 
 // c02StepRepeats: the step can run more than once per execution of its function: an ordinary
-// site inside a loop; an element of a table that is not run by a forward range loop (each
-// element once, in order) or whose loop can be entered again (it sits in an outer loop).
+// site inside a loop; an element of a table that is not run by a forward loop over the whole
+// table (range, or i := 0; i < len; i++: each element once, in order) or whose loop can be
+// entered again (it sits in an outer loop). Reversed, strided and partial walks repeat or skip.
 func c02StepRepeats(v c10VSite) bool {
 	if v.Table == nil {
 		return inLoop(v.Instr.(ssa.Instruction))
@@ -434,7 +548,11 @@ func c02StepRepeats(v c10VSite) bool {
 	if !v.Table.Ordered {
 		return true
 	}
-	// forward range: the call is t[idx](), idx = phi[-1 from outside, idx] + 1
+	// Ordered (c09TableCallOf): a forward walk over the whole table, start, stride and bound
+	// checked there: the call is t[idx]() with idx = phi[-1, idx] + 1 (range loop) or
+	// idx = phi[0, idx+1] (for i := 0; i < len(t); i++). What remains to be shown here is that the
+	// loop is entered once: the constant start of the index comes from a block outside the loop
+	// (the loop header is not inside another loop).
 	ld, _ := v.Instr.Common().Value.(*ssa.UnOp)
 	if ld == nil {
 		return true
@@ -443,12 +561,16 @@ func c02StepRepeats(v c10VSite) bool {
 	if ia == nil {
 		return true
 	}
-	add, _ := ia.Index.(*ssa.BinOp)
-	if add == nil {
-		return true
+	var phi *ssa.Phi
+	var start int64
+	switch idx := ia.Index.(type) {
+	case *ssa.BinOp:
+		phi, _ = idx.X.(*ssa.Phi)
+		start = -1
+	case *ssa.Phi:
+		phi, start = idx, 0
 	}
-	phi, _ := add.X.(*ssa.Phi)
-	if phi == nil {
+	if phi == nil || len(phi.Edges) != 2 {
 		return true
 	}
 	hdr := phi.Block()
@@ -459,7 +581,7 @@ func c02StepRepeats(v c10VSite) bool {
 		}
 	}
 	for i, e := range phi.Edges {
-		if k, isC := constInt(e); isC && k == -1 && i < len(hdr.Preds) && !fromHdr[hdr.Preds[i]] {
+		if k, isC := constInt(e); isC && k == start && i < len(hdr.Preds) && !fromHdr[hdr.Preds[i]] {
 			return false // entered once, from before the loop
 		}
 	}
